@@ -189,8 +189,8 @@ def meth (ty : String) : Method :=
 variable (z : α) (t : TF E α)
 
 /-! ### Point, LineString -/
-theorem tie_geom_Point (p : Pt α) :
-    runM z (transformS t) (some t) (meth "Point") (.point p) = some (transformS t (.point p)) := by
+theorem tie_geom_Point (dyn : Geom α → Except (Fail E) (Geom α)) (p : Pt α) :
+    runM z dyn (some t) (meth "Point") (.point p) = some (transformS t (.point p)) := by
   simp only [meth, Gen.geomMethods, List.lookup, runM, tyOf]
   cases h : t p <;>
     simp [execL, exec1, getG, lookup, assign, pack, transformS, pointT, callT, h]
@@ -213,10 +213,10 @@ theorem mapE_elemPt (l : List (Pt α)) :
     | error e => rfl
     | ok q => simp only [ih]; cases ptsT t ps <;> rfl
 
-theorem tie_geom_LineString (l : List (Pt α)) :
-    runM z (transformS t) (some t) (meth "LineString") (.lineString l) = some (transformS t (.lineString l)) := by
+theorem tie_geom_LineString (dyn : Geom α → Except (Fail E) (Geom α)) (l : List (Pt α)) :
+    runM z dyn (some t) (meth "LineString") (.lineString l) = some (transformS t (.lineString l)) := by
   have hloop := loop_generic (E := E) (varLens "l2" "LineString")
-    (fun k x env err => popO env.length (execL z (transformS t) (some t)
+    (fun k x env err => popO env.length (execL z dyn (some t)
       [.declPt "p2", .callT "p2" "p", .ifErrRetNil, .store "l2" "i" (.var "p2")] (("p", .g x) :: ("i", .idx k) :: env) err))
     (elemPt t) (fun x => ∃ p, x = .point p)
     (by
@@ -241,22 +241,22 @@ def elemA (ty : String) (x : Geom α) : Except (Fail E) (Geom α) :=
   | .error e => .error e
   | .ok y => if tyOf y = ty then .ok y else .error (.panic .typeAssert)
 
-theorem hf_assert (dst ty aty gn v i : String) (h1 : dst ≠ gn) (h2 : dst ≠ v) (h3 : dst ≠ i) (h4 : i ≠ gn) (h5 : i ≠ v)
+theorem hf_assert (dyn : Geom α → Except (Fail E) (Geom α)) (dst ty aty gn v i : String) (h1 : dst ≠ gn) (h2 : dst ≠ v) (h3 : dst ≠ i) (h4 : i ≠ gn) (h5 : i ≠ v)
     (h6 : v ≠ gn) :
-    ∀ k x env a, True → (varLens (α := α) dst aty).get env = some a → k < a.length →
-      popO (E := E) env.length (execL z (transformS t) (some t)
+    ∀ k x env a, dyn x = transformS t x → (varLens (α := α) dst aty).get env = some a → k < a.length →
+      popO (E := E) env.length (execL z dyn (some t)
         [.callM gn v, .ifErrRetNil, .store dst i (.assert gn ty)] ((v, .g x) :: (i, .idx k) :: env) none) =
       outOf (elemA t ty x) fun q => .cont ((varLens dst aty).put (a.set k q) env) none := by
-  intro k x env a _ hg hk
+  intro k x env a hP hg hk
   have hl := varLens_get _ _ _ _ hg
   have h1' := Ne.symm h1; have h4' := Ne.symm h4; have h6' := Ne.symm h6
   simp only [elemA, outOf]
   cases h : transformS t x with
   | error e =>
-    cases e <;> simp [execL, exec1, getG, lookup, popO, h]
+    cases e <;> simp [execL, exec1, getG, lookup, popO, h, hP]
   | ok y =>
     by_cases hy : tyOf y = ty <;>
-      simp [execL, exec1, getG, getIdx, lookup, assign, evalEx, setAt, popO, hl, hk, h, hy, varLens, pop3,
+      simp [execL, exec1, getG, getIdx, lookup, assign, evalEx, setAt, popO, hl, hk, h, hP, hy, varLens, pop3,
         h1, h2, h3, h4, h5, h6, h1', h4', h6']
 
 theorem mapE_elemA_Point (ps : List (Pt α)) :
@@ -295,50 +295,51 @@ theorem mapE_elemA_Poly (ps : List (List (List (Pt α)))) :
     | error e => rfl
     | ok q => simp only [tyOf, if_true, asPoly, ih]; cases multiPolyLoop t ps <;> rfl
 
-theorem tie_geom_MultiPoint (ps : List (Pt α)) :
-    runM z (transformS t) (some t) (meth "MultiPoint") (.multiPoint ps) = some (transformS t (.multiPoint ps)) := by
+theorem tie_geom_MultiPoint (dyn : Geom α → Except (Fail E) (Geom α)) (ps : List (Pt α))
+    (hd : ∀ x ∈ ps.map Geom.point, dyn x = transformS t x) :
+    runM z dyn (some t) (meth "MultiPoint") (.multiPoint ps) = some (transformS t (.multiPoint ps)) := by
   have hloop := loop_generic (E := E) (varLens "mp2" "MultiPoint")
-    (fun k x env err => popO env.length (execL z (transformS t) (some t)
+    (fun k x env err => popO env.length (execL z dyn (some t)
       [.callM "g" "p", .ifErrRetNil, .store "mp2" "i" (.assert "g" "Point")] (("p", .g x) :: ("i", .idx k) :: env) err))
-    (elemA t "Point") (fun _ => True)
-    (hf_assert z t "mp2" "Point" "MultiPoint" "g" "p" "i" (by decide) (by decide) (by decide) (by decide) (by decide) (by decide))
+    (elemA t "Point") (fun x => dyn x = transformS t x)
+    (hf_assert z t dyn "mp2" "Point" "MultiPoint" "g" "p" "i" (by decide) (by decide) (by decide) (by decide) (by decide) (by decide))
     (ps.map Geom.point) [] (List.replicate ps.length (.point ⟨z, z⟩))
     [("mp2", .arr "MultiPoint" (List.replicate ps.length (.point ⟨z, z⟩))), ("mp", .g (.multiPoint ps))]
-    (by simp) (by simp [varLens, lookup]) (by simp)
+    hd (by simp [varLens, lookup]) (by simp)
   rw [mapE_elemA_Point] at hloop
   simp [meth, Gen.geomMethods, List.lookup, runM, tyOf, execL, exec1, getG, lookup, elems, zeros] at hloop ⊢
   rw [hloop]
   simp only [transformS]
   cases multiPointLoop t ps <;> simp [varLens, assign, lookup, pack, mapO_unPt]
 
-theorem tie_geom_MultiLineString (ls : List (List (Pt α))) :
-    runM z (transformS t) (some t) (meth "MultiLineString") (.multiLineString ls) =
-      some (transformS t (.multiLineString ls)) := by
+theorem tie_geom_MultiLineString (dyn : Geom α → Except (Fail E) (Geom α)) (ls : List (List (Pt α)))
+    (hd : ∀ x ∈ ls.map Geom.lineString, dyn x = transformS t x) :
+    runM z dyn (some t) (meth "MultiLineString") (.multiLineString ls) = some (transformS t (.multiLineString ls)) := by
   have hloop := loop_generic (E := E) (varLens "ml2" "MultiLineString")
-    (fun k x env err => popO env.length (execL z (transformS t) (some t)
+    (fun k x env err => popO env.length (execL z dyn (some t)
       [.callM "g" "l", .ifErrRetNil, .store "ml2" "i" (.assert "g" "LineString")] (("l", .g x) :: ("i", .idx k) :: env) err))
-    (elemA t "LineString") (fun _ => True)
-    (hf_assert z t "ml2" "LineString" "MultiLineString" "g" "l" "i" (by decide) (by decide) (by decide) (by decide) (by decide) (by decide))
+    (elemA t "LineString") (fun x => dyn x = transformS t x)
+    (hf_assert z t dyn "ml2" "LineString" "MultiLineString" "g" "l" "i" (by decide) (by decide) (by decide) (by decide) (by decide) (by decide))
     (ls.map Geom.lineString) [] (List.replicate ls.length (.lineString []))
     [("ml2", .arr "MultiLineString" (List.replicate ls.length (.lineString []))), ("ml", .g (.multiLineString ls))]
-    (by simp) (by simp [varLens, lookup]) (by simp)
+    hd (by simp [varLens, lookup]) (by simp)
   rw [mapE_elemA_Line] at hloop
   simp [meth, Gen.geomMethods, List.lookup, runM, tyOf, execL, exec1, getG, lookup, elems, zeros] at hloop ⊢
   rw [hloop]
   simp only [transformS]
   cases multiLineLoop t ls <;> simp [varLens, assign, lookup, pack, mapO_unLine]
 
-theorem tie_geom_MultiPolygon (ps : List (List (List (Pt α)))) :
-    runM z (transformS t) (some t) (meth "MultiPolygon") (.multiPolygon ps) =
-      some (transformS t (.multiPolygon ps)) := by
+theorem tie_geom_MultiPolygon (dyn : Geom α → Except (Fail E) (Geom α)) (ps : List (List (List (Pt α))))
+    (hd : ∀ x ∈ ps.map Geom.polygon, dyn x = transformS t x) :
+    runM z dyn (some t) (meth "MultiPolygon") (.multiPolygon ps) = some (transformS t (.multiPolygon ps)) := by
   have hloop := loop_generic (E := E) (varLens "mp2" "MultiPolygon")
-    (fun k x env err => popO env.length (execL z (transformS t) (some t)
+    (fun k x env err => popO env.length (execL z dyn (some t)
       [.callM "g" "p", .ifErrRetNil, .store "mp2" "i" (.assert "g" "Polygon")] (("p", .g x) :: ("i", .idx k) :: env) err))
-    (elemA t "Polygon") (fun _ => True)
-    (hf_assert z t "mp2" "Polygon" "MultiPolygon" "g" "p" "i" (by decide) (by decide) (by decide) (by decide) (by decide) (by decide))
+    (elemA t "Polygon") (fun x => dyn x = transformS t x)
+    (hf_assert z t dyn "mp2" "Polygon" "MultiPolygon" "g" "p" "i" (by decide) (by decide) (by decide) (by decide) (by decide) (by decide))
     (ps.map Geom.polygon) [] (List.replicate ps.length (.polygon []))
     [("mp2", .arr "MultiPolygon" (List.replicate ps.length (.polygon []))), ("mp", .g (.multiPolygon ps))]
-    (by simp) (by simp [varLens, lookup]) (by simp)
+    hd (by simp [varLens, lookup]) (by simp)
   rw [mapE_elemA_Poly] at hloop
   simp [meth, Gen.geomMethods, List.lookup, runM, tyOf, execL, exec1, getG, lookup, elems, zeros] at hloop ⊢
   rw [hloop]
@@ -355,23 +356,24 @@ theorem mapE_coll (gs : List (Geom α)) : mapE (transformS t) gs = collLoop t gs
     | error e => rfl
     | ok q => cases collLoop t gs <;> rfl
 
-theorem tie_geom_GeometryCollection (gs : List (Geom α)) :
-    runM z (transformS t) (some t) (meth "GeometryCollection") (.collection gs) =
+theorem tie_geom_GeometryCollection (dyn : Geom α → Except (Fail E) (Geom α)) (gs : List (Geom α))
+    (hd : ∀ x ∈ gs, dyn x = transformS t x) :
+    runM z dyn (some t) (meth "GeometryCollection") (.collection gs) =
       some (transformS t (.collection gs)) := by
   have hloop := loop_generic (E := E) (varLens "gc2" "GeometryCollection")
-    (fun k x env err => popO env.length (execL z (transformS t) (some t)
+    (fun k x env err => popO env.length (execL z dyn (some t)
       [.storeCallM "gc2" "i" "g", .ifErrRetNil] (("g", .g x) :: ("i", .idx k) :: env) err))
-    (transformS t) (fun _ => True)
+    (transformS t) (fun x => dyn x = transformS t x)
     (by
-      intro k x env a _ hg hk
+      intro k x env a hP hg hk
       have hl := varLens_get _ _ _ _ hg
       simp only [outOf]
       cases h : transformS t x with
-      | error e => cases e <;> simp [execL, exec1, getG, getIdx, lookup, assign, popO, hl, h]
-      | ok y => simp [execL, exec1, getG, getIdx, lookup, assign, setAt, popO, hl, hk, h, varLens, pop2])
+      | error e => cases e <;> simp [execL, exec1, getG, getIdx, lookup, assign, popO, hl, h, hP]
+      | ok y => simp [execL, exec1, getG, getIdx, lookup, assign, setAt, popO, hl, hk, h, hP, varLens, pop2])
     gs [] (List.replicate gs.length .nil)
     [("gc2", .arr "GeometryCollection" (List.replicate gs.length .nil)), ("gc", .g (.collection gs))]
-    (by simp) (by simp [varLens, lookup]) (by simp)
+    hd (by simp [varLens, lookup]) (by simp)
   rw [mapE_coll] at hloop
   simp [meth, Gen.geomMethods, List.lookup, runM, tyOf, execL, exec1, getG, lookup, elems, zeros] at hloop ⊢
   rw [hloop]
@@ -491,9 +493,9 @@ theorem mapE_elemRing (rs : List (List (Pt α))) :
     | error e => rfl
     | ok q => simp only [ih]; cases ringsT t rs <;> rfl
 
-theorem hf_ring :
+theorem hf_ring (dyn : Geom α → Except (Fail E) (Geom α)) :
     ∀ l x env a, (∃ p, x = Geom.point p) → (rowLens (α := α) "p2" "i" (by decide)).get env = some a → l < a.length →
-      popO (E := E) env.length (execL z (transformS t) (some t)
+      popO (E := E) env.length (execL z dyn (some t)
         [.declPt "pp2", .callT "pp2" "pp", .ifErrRetNil, .store2 "p2" "i" "j" (.var "pp2")]
         (("pp", .g x) :: ("j", .idx l) :: env) none) =
       outOf (elemPt t x) fun q => .cont ((rowLens "p2" "i" (by decide)).put (a.set l q) env) none := by
@@ -504,9 +506,9 @@ theorem hf_ring :
   cases h : t p <;>
     simp [execL, exec1, getG, getIdx, lookup, assign, evalEx, setAt, popO, hd, hi, hr, hk, h, rowLens, rowPut, pop3]
 
-theorem hf_poly :
+theorem hf_poly (dyn : Geom α → Except (Fail E) (Geom α)) :
     ∀ k x env a, (∃ r, x = Geom.lineString r) → (rowsLens (α := α) "p2" "Polygon").get env = some a → k < a.length →
-      popO (E := E) env.length (execL z (transformS t) (some t)
+      popO (E := E) env.length (execL z dyn (some t)
         [.makeAt "p2" "i" "[]Point" "r", .range "j" "pp" "r"
           [.declPt "pp2", .callT "pp2" "pp", .ifErrRetNil, .store2 "p2" "i" "j" (.var "pp2")]]
         (("r", .g x) :: ("i", .idx k) :: env) none) =
@@ -515,10 +517,10 @@ theorem hf_poly :
   have hd := rowsLens_get _ _ _ _ hg
   obtain ⟨r, rfl⟩ := hP
   have hloop := loop_generic (E := E) (rowLens "p2" "i" (by decide))
-    (fun l x env err => popO env.length (execL z (transformS t) (some t)
+    (fun l x env err => popO env.length (execL z dyn (some t)
       [.declPt "pp2", .callT "pp2" "pp", .ifErrRetNil, .store2 "p2" "i" "j" (.var "pp2")]
       (("pp", .g x) :: ("j", .idx l) :: env) err))
-    (elemPt t) (fun x => ∃ p, x = .point p) (hf_ring z t)
+    (elemPt t) (fun x => ∃ p, x = .point p) (hf_ring z t dyn)
     (r.map Geom.point) [] (List.replicate r.length (.point ⟨z, z⟩))
     (("r", .g (.lineString r)) :: ("i", .idx k) ::
       assign "p2" (.arr2 "Polygon" (rows.set k (List.replicate r.length (.point ⟨z, z⟩)))) env)
@@ -534,14 +536,14 @@ theorem hf_poly :
     simp [outOf, popO, rowLens, rowPut, rowsLens, lookup, assign, lookup_assign_self "p2" _ env _ hd, pop2,
       assign_assign]
 
-theorem tie_geom_Polygon (rs : List (List (Pt α))) :
-    runM z (transformS t) (some t) (meth "Polygon") (.polygon rs) = some (transformS t (.polygon rs)) := by
+theorem tie_geom_Polygon (dyn : Geom α → Except (Fail E) (Geom α)) (rs : List (List (Pt α))) :
+    runM z dyn (some t) (meth "Polygon") (.polygon rs) = some (transformS t (.polygon rs)) := by
   have hloop := loop_generic (E := E) (rowsLens "p2" "Polygon")
-    (fun k x env err => popO env.length (execL z (transformS t) (some t)
+    (fun k x env err => popO env.length (execL z dyn (some t)
       [.makeAt "p2" "i" "[]Point" "r", .range "j" "pp" "r"
         [.declPt "pp2", .callT "pp2" "pp", .ifErrRetNil, .store2 "p2" "i" "j" (.var "pp2")]]
       (("r", .g x) :: ("i", .idx k) :: env) err))
-    (elemRing t) (fun x => ∃ r, x = .lineString r) (hf_poly z t)
+    (elemRing t) (fun x => ∃ r, x = .lineString r) (hf_poly z t dyn)
     (rs.map Geom.lineString) [] (List.replicate rs.length [])
     [("p2", .arr2 "Polygon" (List.replicate rs.length [])), ("p", .g (.polygon rs))]
     (by simp) (by simp [rowsLens, lookup]) (by simp)
@@ -552,10 +554,11 @@ theorem tie_geom_Polygon (rs : List (List (Pt α))) :
   cases ringsT t rs <;> simp [rowsLens, assign, lookup, pack, mapO_rows]
 
 /-! ### *Bounds: the four-corner ring handed to `Polygon.Transform` -/
-theorem tie_geom_Bounds (mn mx : Pt α) :
-    runM z (transformS t) (some t) (meth "*Bounds") (.bounds mn mx) = some (transformS t (.bounds mn mx)) := by
+theorem tie_geom_Bounds (dyn : Geom α → Except (Fail E) (Geom α)) (mn mx : Pt α)
+    (hd : ∀ rs, dyn (.polygon rs) = transformS t (.polygon rs)) :
+    runM z dyn (some t) (meth "*Bounds") (.bounds mn mx) = some (transformS t (.bounds mn mx)) := by
   simp [meth, Gen.geomMethods, List.lookup, runM, tyOf, execL, exec1, getG, lookup, evalRows, evalRow, evalEx,
-    corner, transformS, boundsT]
+    corner, transformS, boundsT, hd]
 
 /-! ### the nil transformer: every method returns its receiver -/
 theorem tie_geom_nil (dyn : Geom α → Except (Fail E) (Geom α)) (g : Geom α) (h : g ≠ .nil) :
@@ -576,15 +579,118 @@ theorem tie_geom_methods (topt : Option (TF E α)) (g : Geom α) (h : g ≠ .nil
     cases g <;> first | exact absurd rfl h | rfl
   | some t =>
     cases g with
-    | point p => exact tie_geom_Point z t p
-    | multiPoint ps => exact tie_geom_MultiPoint z t ps
-    | lineString l => exact tie_geom_LineString z t l
-    | multiLineString ls => exact tie_geom_MultiLineString z t ls
-    | polygon rs => exact tie_geom_Polygon z t rs
-    | multiPolygon ps => exact tie_geom_MultiPolygon z t ps
-    | collection gs => exact tie_geom_GeometryCollection z t gs
-    | bounds mn mx => exact tie_geom_Bounds z t mn mx
+    | point p => exact tie_geom_Point z t _ p
+    | multiPoint ps => exact tie_geom_MultiPoint z t _ ps (fun _ _ => rfl)
+    | lineString l => exact tie_geom_LineString z t _ l
+    | multiLineString ls => exact tie_geom_MultiLineString z t _ ls (fun _ _ => rfl)
+    | polygon rs => exact tie_geom_Polygon z t _ rs
+    | multiPolygon ps => exact tie_geom_MultiPolygon z t _ ps (fun _ _ => rfl)
+    | collection gs => exact tie_geom_GeometryCollection z t _ gs (fun _ _ => rfl)
+    | bounds mn mx => exact tie_geom_Bounds z t _ mn mx (fun _ => rfl)
     | nil => exact absurd rfl h
+
+/-! ### the extracted PROGRAM: the eight methods calling each other -/
+
+/-- how deep the calls `x.Transform(t)` go below a receiver -/
+def rank : Geom α → Nat
+  | .collection gs => rankL gs + 1
+  | .multiPoint _ => 1 | .multiLineString _ => 1 | .multiPolygon _ => 1 | .bounds _ _ => 1
+  | _ => 0
+where rankL : List (Geom α) → Nat
+  | [] => 0
+  | g :: gs => max (rank g) (rankL gs)
+
+theorem rank_le_of_mem : ∀ (gs : List (Geom α)) (g : Geom α), g ∈ gs → rank g ≤ rank.rankL gs
+  | [], _, h => by simp at h
+  | x :: xs, g, h => by
+    simp only [List.mem_cons] at h
+    simp only [rank.rankL]
+    rcases h with rfl | h
+    · exact Nat.le_max_left _ _
+    · exact Nat.le_trans (rank_le_of_mem xs g h) (Nat.le_max_right _ _)
+
+theorem noNil_of_mem : ∀ (gs : List (Geom α)) (g : Geom α), noNilL gs = true → g ∈ gs → noNil g = true
+  | [], _, _, h => by simp at h
+  | x :: xs, g, hn, h => by
+    simp only [noNilL, Bool.and_eq_true] at hn
+    simp only [List.mem_cons] at h
+    rcases h with rfl | h
+    · exact hn.1
+    · exact noNil_of_mem xs g hn.2 h
+
+/-- the program with `n` levels of calls allowed: `g.Transform(t)` runs the extracted method of `g`'s dynamic
+type, in whose body a call `x.Transform(t)` runs the program with `n - 1` levels; running out of levels, or an
+interpreter that is stuck, is reported as `Fault.recursion` (which the model never returns) -/
+def progSem (topt : Option (TF E α)) : Nat → Geom α → Except (Fail E) (Geom α)
+  | 0, _ => .error (.panic .recursion)
+  | n + 1, g =>
+    match runM z (progSem topt n) topt (meth (tyOf g)) g with
+    | some r => r
+    | none => .error (.panic .recursion)
+
+/-- **The extracted program computes the model.**  The eight methods as extracted from the source, calling EACH
+OTHER (no reference to the model inside the bodies), with as many levels of calls as the receiver's nesting needs,
+return exactly the model's `transform topt g` — for every transformer or nil and every geometry without nil
+members.  (With `tie_geom_methods`: the model is not just a solution of the extracted equations, it is what the
+extracted program computes.) -/
+theorem tie_geom_program (topt : Option (TF E α)) :
+    ∀ (n : Nat) (g : Geom α), noNil g = true → rank g < n → progSem z topt n g = transform topt g := by
+  intro n
+  induction n with
+  | zero => intro g _ h; omega
+  | succ n ih =>
+    intro g hn hr
+    have hne : g ≠ .nil := by intro h; subst h; simp [noNil] at hn
+    cases topt with
+    | none =>
+      simp only [progSem, tie_geom_nil z _ g hne]
+      cases g <;> first | exact absurd rfl hne | rfl
+    | some t =>
+      have ihS : ∀ x, noNil x = true → rank x < n → progSem z (some t) n x = transformS t x := by
+        intro x hx hxr
+        rw [ih x hx hxr]
+        cases x <;> first | rfl | simp [noNil] at hx
+      cases g with
+      | point p => simp only [progSem, tyOf, tie_geom_Point z t _ p]; rfl
+      | lineString l => simp only [progSem, tyOf, tie_geom_LineString z t _ l]; rfl
+      | polygon rs => simp only [progSem, tyOf, tie_geom_Polygon z t _ rs]; rfl
+      | multiPoint ps =>
+        have hd : ∀ x ∈ ps.map Geom.point, progSem z (some t) n x = transformS t x := by
+          intro x hx
+          obtain ⟨p, _, rfl⟩ := List.mem_map.mp hx
+          exact ihS _ rfl (by simp [rank] at hr ⊢; omega)
+        simp only [progSem, tyOf, tie_geom_MultiPoint z t _ ps hd]; rfl
+      | multiLineString ls =>
+        have hd : ∀ x ∈ ls.map Geom.lineString, progSem z (some t) n x = transformS t x := by
+          intro x hx
+          obtain ⟨p, _, rfl⟩ := List.mem_map.mp hx
+          exact ihS _ rfl (by simp [rank] at hr ⊢; omega)
+        simp only [progSem, tyOf, tie_geom_MultiLineString z t _ ls hd]; rfl
+      | multiPolygon ps =>
+        have hd : ∀ x ∈ ps.map Geom.polygon, progSem z (some t) n x = transformS t x := by
+          intro x hx
+          obtain ⟨p, _, rfl⟩ := List.mem_map.mp hx
+          exact ihS _ rfl (by simp [rank] at hr ⊢; omega)
+        simp only [progSem, tyOf, tie_geom_MultiPolygon z t _ ps hd]; rfl
+      | bounds mn mx =>
+        have hd : ∀ rs, progSem z (some t) n (.polygon rs) = transformS t (.polygon rs) := by
+          intro rs
+          exact ihS _ rfl (by simp [rank] at hr ⊢; omega)
+        simp only [progSem, tyOf, tie_geom_Bounds z t _ mn mx hd]; rfl
+      | collection gs =>
+        have hd : ∀ x ∈ gs, progSem z (some t) n x = transformS t x := by
+          intro x hx
+          have h1 := rank_le_of_mem gs x hx
+          have h2 := noNil_of_mem gs x (by simpa [noNil] using hn) hx
+          exact ihS x h2 (by simp [rank] at hr; omega)
+        simp only [progSem, tyOf, tie_geom_GeometryCollection z t _ gs hd]; rfl
+      | nil => exact absurd rfl hne
+
+/-- non-vacuity: a collection nested three deep, with a bounds inside, run with five levels -/
+example (t : TF Unit Nat) :
+    progSem (0 : Nat) (some t) 5 (.collection [.collection [.collection [.bounds ⟨1, 2⟩ ⟨3, 4⟩, .multiPoint [⟨5, 6⟩]]]]) =
+      transform (some t) (.collection [.collection [.collection [.bounds ⟨1, 2⟩ ⟨3, 4⟩, .multiPoint [⟨5, 6⟩]]]]) :=
+  tie_geom_program 0 (some t) 5 _ rfl (by decide)
 
 /-- the methods named `Transform` in package geom are exactly the eight modelled ones, with one signature -/
 theorem tie_Geom :
